@@ -194,6 +194,38 @@ impl Payload for P1 {
 }
 drop_impl!(P1);
 
+/// Odd sizes below the pointer size (3, 5, 6, 7 bytes, alignment 1): byte 0 is the identity,
+/// the others are derived from it.  A hand-off that copies "by units" and drops the tail byte
+/// only shows with these (C04-r7m1).
+macro_rules! odd_payload {
+    ($name:ident, $n:expr, $s:expr) => {
+        pub struct $name([u8; $n]);
+        impl Payload for $name {
+            const NAME: &'static str = $s;
+            const DROPPABLE: bool = true;
+            fn make(id: u32) -> Self {
+                let mut b = [0u8; $n];
+                b[0] = id as u8;
+                for i in 1..$n {
+                    b[i] = (mix(id & 0xff, i as u32) as u8) | 1;
+                }
+                $name(b)
+            }
+            fn id(&self) -> u32 {
+                self.0[0] as u32
+            }
+            fn verify(&self) -> bool {
+                (1..$n).all(|i| self.0[i] == (mix(self.0[0] as u32, i as u32) as u8) | 1)
+            }
+        }
+        drop_impl!($name);
+    };
+}
+odd_payload!(P3, 3, "P3");
+odd_payload!(P5, 5, "P5");
+odd_payload!(P6, 6, "P6");
+odd_payload!(P7, 7, "P7");
+
 pub struct P4 {
     id: u16,
     chk: u16,
